@@ -88,7 +88,8 @@ impl<R: AsyncRead + Unpin + Send + Sync> AsyncReadPacket for R {
         // expect it to take the full buffer (the text component is the last element in the packet)
         let mut buffer = vec![tag];
         self.read_to_end(&mut buffer).await?;
-        let nbt: Value = fastnbt::from_bytes_with_opts(&buffer, DeOpts::network_nbt())?;
+        let mut nbt: Value = fastnbt::from_bytes_with_opts(&buffer, DeOpts::network_nbt())?;
+        unwrap_list_elements(&mut nbt);
         let json: String = serde_json::to_string(&nbt)?;
 
         Ok(json)
@@ -107,5 +108,25 @@ impl<R: AsyncRead + Unpin + Send + Sync> AsyncReadPacket for R {
         }
 
         Ok(buffer)
+    }
+}
+
+/// Undoes the wrapping of list elements of different kinds (see `write_text_component`): an element
+/// that is a compound with nothing but the empty name stands for the value stored under it.
+fn unwrap_list_elements(value: &mut Value) {
+    match value {
+        Value::List(items) => {
+            for item in items.iter_mut() {
+                if let Value::Compound(map) = item
+                    && map.len() == 1
+                    && let Some(inner) = map.remove("")
+                {
+                    *item = inner;
+                }
+                unwrap_list_elements(item);
+            }
+        }
+        Value::Compound(map) => map.values_mut().for_each(unwrap_list_elements),
+        _ => {}
     }
 }
